@@ -803,7 +803,11 @@ func (rn *runner) runProg(p *Prog, ck *checked, results map[int]*gmResult, r *vh
 		rep.Fail(vh.Failure{Key: rn.key(p, nil), What: "gomacro rejects a declaration accepted by go/types", Input: map[string]interface{}{"prog": p, "decl": src}, Got: short(e)})
 	}
 	rn.wd.Beat(p.Name)
-	if _, e := evalStr(ir, "import (\"fmt\"; \"sort\"; \"strconv\")"); e != nil {
+	imports := "\"fmt\"; \"sort\"; \"strconv\""
+	for _, im := range p.Imports {
+		imports += fmt.Sprintf("; %q", im)
+	}
+	if _, e := evalStr(ir, "import ("+imports+")"); e != nil {
 		declFail("import", e)
 		return "", false
 	}
@@ -969,6 +973,8 @@ func main() {
 		"part 3: twin types = 2..3 named types per kind (struct with value or pointer receivers, slice, map, func, chan, array, int16, string) sharing one underlying type and all implementing Sh/error/fmt.Stringer: "+
 		"comma-ok and single-value assertions, classification through an interface parameter and type switches between twins (same reflect.Type, different identity), nil values included, tags Sh (interpreted), error, fmt.Stringer; "+
 		"classes gated on known_findings.json (generated once registered as fixed): comma-ok between basic-kind twins, basic-kind argument to an interface parameter. "+
+		"part 4: type switches over COMPILED concrete types (time.Duration/Month/Weekday/Time, *time.Location, os.FileMode, *os.PathError/LinkError/SyscallError, *strconv.NumError, *bytes.Buffer, *strings.Builder/Reader, int, string, float64, []int ...) and the COMPILED interfaces they implement "+
+		"(fmt.Stringer, error, io.Writer/Reader/ByteReader/StringWriter, interface{}): tag interface{} or an implemented interface, 3..7 clauses in random order (own type, implemented interfaces, other types and interfaces, several types per clause, nil, default anywhere), bound variable half of the time, typed nil pointers and nil values; "+
 		"One evaluation = one site (compile + run, compared with go/types accept/reject and the compiled-Go output) or one (type,name) lookup triple compared with go/types.LookupFieldOrMethod; "+
 		"non-trivial = the name is found at depth >= 1 or is ambiguous, or the site is an interface/assertion/switch site; distinct by SHA-256 of hierarchy+site")
 	rn := &runner{rep: rep, seed: a.Seed}
@@ -1018,6 +1024,7 @@ func main() {
 			Failure struct {
 				Input struct {
 					Types, Decls, Late, Vars []string
+					Imports                  []string
 					Site                     Site
 				} `json:"input"`
 			} `json:"failure"`
@@ -1030,7 +1037,7 @@ func main() {
 		in := rp.Failure.Input
 		in.Site.ID = 0
 		in.Site.Phase = 1
-		progs = []*Prog{{Name: "r000", Types: in.Types, Decls: in.Decls, Late: in.Late, Vars: in.Vars, Sites: []Site{in.Site}}}
+		progs = []*Prog{{Name: "r000", Types: in.Types, Decls: in.Decls, Late: in.Late, Vars: in.Vars, Imports: in.Imports, Sites: []Site{in.Site}}}
 		nCorpus = 1
 	}
 	nH := 40
@@ -1128,6 +1135,26 @@ func main() {
 		progs = append(progs, p)
 		checks = append(checks, nil)
 	}
+	// part 4: type switches over compiled concrete types and the compiled interfaces they implement (stdcases.go); own PRNG stream
+	nStd, nStdSites := 3, 120
+	if a.Thorough() {
+		nStd = 40
+	}
+	if a.Replay != "" {
+		nStd = 0
+	}
+	srng := vh.NewRng(a.Seed*7919 + 94)
+	for i := 0; i < nStd; i++ {
+		p := genStdCaseProg(srng.Fork(), fmt.Sprintf("s%04d", i), nStdSites)
+		ck := typecheck(p, false)
+		if len(ck.declErrs) > 0 {
+			fmt.Fprintf(os.Stderr, "generator bug: declarations of %s do not type-check: %v\n%s\n", p.Name, ck.declErrs, p.goSource("h", map[int]bool{}))
+			os.Exit(2)
+		}
+		rep.Dist("program:std-switch")
+		progs = append(progs, p)
+		checks = append(checks, nil)
+	}
 	if pf, err := os.Create(a.Path("progs.jsonl")); err == nil {
 		for _, p := range progs {
 			b, _ := json.Marshal(p)
@@ -1186,7 +1213,7 @@ func main() {
 				continue
 			}
 			goOK := accepted[p.Name][s.ID]
-			in := map[string]interface{}{"prog": p.Name, "types": p.Types, "decls": p.Decls, "late": p.Late, "vars": p.Vars, "site": s}
+			in := map[string]interface{}{"prog": p.Name, "types": p.Types, "decls": p.Decls, "late": p.Late, "vars": p.Vars, "imports": p.Imports, "site": s}
 			siteFail := func(f vh.Failure) {
 				if p.Pending && status[f.Key] == "" {
 					rep.Extra["proposed_finding_reproduced:"+f.Key] = true
